@@ -57,6 +57,27 @@ Theorem C15_state_wf_history : forall E ops st s,
 Proof. exact lrun_wf. Qed.
 Print Assumptions C15_state_wf_history.
 
+(* every call -- with or without update (a K-value query), with or without reuse, returning or raising -- either leaves the
+   remembered K and the T, z, chemicals it belongs to all untouched, or replaces all of them by the values of this call *)
+Theorem C15_key_consistent : forall E o st s a st' s' t s1 index mol F z,
+  lle_call E o st s a = (st', s', t) ->
+  call_data E s a = (s1, index, mol, F, z) ->
+  cache_key st' = cache_key st \/ fresh_key st' (aT a) z index.
+Proof. exact key_consistent_lemma. Qed.
+Print Assumptions C15_key_consistent.
+
+(* hence a later call that reuses K does so only within the tolerances of the call that computed that K *)
+Theorem C15_reuse_only_of_latest : forall E o st1 s a st2 s2 t sA index mol F z T1 z1 idx1,
+  fresh_key st1 T1 z1 idx1 ->
+  lle_call E o st1 s a = (st2, s2, t) ->
+  call_data E s a = (sA, index, mol, F, z) ->
+  t_used_cache t = true ->
+  index = idx1 /\ Qabs (aT a - T1) < tolT st1 /\
+  (forall i, (i < length z1)%nat -> (i < length z)%nat -> Qabs (nthq z1 i - nthq z i) < tolz st1) /\
+  exists l' L', sK st1 = Some (fst (stored_K_phi l' L')).
+Proof. exact reuse_only_of_latest_lemma. Qed.
+Print Assumptions C15_reuse_only_of_latest.
+
 (* ---- labelling: after the top_chemical logic the two liquids are the given ones, possibly exchanged; the top
    chemical's mass fraction in 'L' is at least that in 'l' when both are non-empty; a single liquid is in 'L' *)
 Theorem C15_top_label : forall E index top ml mL l' L',
